@@ -607,7 +607,7 @@ pub unsafe fn rec_clone(src: *const u8, dst: *mut u8, count: usize) {
     }
     gh.total_cloned += count;
     gh.last_clone_src = s;
-    gh.last_clone_dst = match d { Some(d) => d, None => usize::MAX };
+    gh.last_clone_dst = match off(dst as *const u8) { Some(d) => d, None => usize::MAX };
     gh.last_clone_n = count;
 }
 
